@@ -300,7 +300,7 @@ def _walk(st, pos, ext):
         for b, br in enumerate(st["branches"]):
             assign_externals(br["body"], f"{pos}/b{b}", ext)
     elif op == "map":
-        bodies = st.get("bodies") or [st["body"]] * len(st["items"])
+        bodies = st["bodies"] if "bodies" in st else [st["body"]] * len(st["items"])
         for b, body in enumerate(bodies):
             assign_externals(body, f"{pos}/b{b}", ext)
 
